@@ -1,5 +1,6 @@
 // C14: the two private formula decoders through their verif hooks.
 //   xls  SHEETS NAMES XTIS HEX     (HEX = CellParsedFormula: cce + rgce)
+//   xls@R:C SHEETS NAMES XTIS HEX  the same for a cell (R, C) using a shared formula (base of PtgRefN / PtgAreaN)
 //   xlsb SHEETS NAMES HEX          (HEX = rgce)
 // SHEETS / NAMES: comma-separated hex of UTF-8 names ("-" = empty list, "." = empty name);
 // XTIS: sup:first:last,… (raw u16; first/last are reinterpreted as i16), "-" = none.
@@ -30,7 +31,12 @@ fn out(r: Result<String, String>) -> String {
 
 pub fn run(args: &[&str]) -> String {
     match args {
-        ["xls", sh, nm, xt, h] => {
+        [fmt, sh, nm, xt, h] if *fmt == "xls" || fmt.starts_with("xls@") => {
+            // "xls@R:C": the cell (R, C) using a shared formula is the base of PtgRefN / PtgAreaN
+            let base = fmt.strip_prefix("xls@").map(|b| {
+                let p: Vec<u32> = b.split(':').map(|x| x.parse().unwrap()).collect();
+                (p[0], p[1])
+            });
             let sheets = names(sh);
             let nms: Vec<(String, String)> = names(nm).into_iter().map(|n| (n, String::new())).collect();
             let xtis: Vec<(u16, i16, i16)> = if *xt == "-" {
@@ -43,7 +49,7 @@ pub fn run(args: &[&str]) -> String {
                     })
                     .collect()
             };
-            out(xls::parse_formula(&unhex(h), &sheets, &nms, &xtis))
+            out(xls::parse_formula_at(&unhex(h), &sheets, &nms, &xtis, base))
         }
         ["xlsb", sh, nm, h] => {
             let sheets = names(sh);
